@@ -4,7 +4,7 @@ import re
 from qv.facts import callee_name, const_name, const_int, is_place, op_str
 from qv.flow import slice_of
 from qv import paths, effects, tables
-from qv.rulelib import W, calls_in
+from qv.rulelib import W, calls_in, enum_variants
 
 MODE = 'lib'
 EXPLANATION = """
@@ -137,9 +137,45 @@ def check(R, F):
     for f in ('noerror_rate', 'nxdomain_rate', 'error_rate', 'window'):
         R.require(not wr.get(f), 'rate-window', 'server::rrl::RrlParams|%s-immutable' % f, '', 'no function assigns %s after construction' % f, '%s is assigned by %s' % (f, sorted(wr.get(f, {}))))
     rl = F.fn('server::rrl::Rrl::rate_and_limit_for_category')
-    muls = [(paths.show_operand(rl, st['rv']['a']), paths.show_operand(rl, st['rv']['b'])) for blk in rl.blocks for st in blk['stmts'] if st['k'] == 'assign' and st['rv']['k'] == 'bin' and st['rv']['op'].startswith('Mul')]
-    want = sorted(('arg1.params.%s' % r, 'arg1.params.window') for r in ('noerror_rate', 'nxdomain_rate', 'error_rate'))
-    R.require(sorted(muls) == want, 'rate-window', 'server::rrl::Rrl::rate_and_limit_for_category|products', rl.where(), 'limit = rate x window over the admitted fields', 'limits are computed as %s' % muls)
+    # by value provenance: under each category the returned rate is that category's rate field, and the returned limit is
+    # a product of the window and that same rate -- however the arms and the multiplication are arranged
+    from qv import origins
+    cats = enum_variants(F, 'server::rrl::Category')
+
+    def arm_of(b):
+        allowed = set(range(len(cats)))
+        for g in paths.dom_guards(rl, b, variants=False):
+            m = re.match(r'^discr\(arg2\) (in|not in) \[([\d, ]+)\]$', g)
+            if m:
+                vs = {int(x) for x in m.group(2).split(',')}
+                allowed &= vs if m.group(1) == 'in' else (allowed - vs)
+        return tuple(sorted(cats[k] for k in allowed))
+
+    def rate_leaves(leaves):
+        out = set()
+        for lf in leaves:
+            if lf[0] == 'rv' and lf[3].get('k') == 'use':
+                out.add((arm_of(lf[1]), paths.show_operand(rl, lf[3]['op'])))
+            else:
+                out.add((('?',), str(lf[0])))
+        return out
+    r0 = rate_leaves(origins.trace(rl, 0, [('f', 0)]))
+    r1, others = set(), []
+    for lf in origins.trace(rl, 0, [('f', 1)]):
+        if lf[0] == 'rv' and lf[3].get('k') == 'bin' and lf[3]['op'].startswith('Mul'):
+            ops = [lf[3]['a'], lf[3]['b']]
+            w = [o for o in ops if paths.show_operand(rl, o) == 'arg1.params.window']
+            rest = [o for o in ops if paths.show_operand(rl, o) != 'arg1.params.window']
+            if len(w) == 1 and len(rest) == 1 and is_place(rest[0]):
+                arm = arm_of(lf[1])
+                for a2, f2 in rate_leaves(origins._from_operand(rl, lf[1], lf[2], rest[0], [], set(), 0)):
+                    r1.add((tuple(sorted(set(a2) & set(arm))) if a2 != ('?',) else a2, f2))
+                continue
+        others.append(lf[0])
+    want = {(('NoError',), 'arg1.params.noerror_rate'), (('NxDomain',), 'arg1.params.nxdomain_rate'), (('Error',), 'arg1.params.error_rate')}
+    r1 = {x for x in r1 if x[0]}
+    R.require(r0 == want and r1 == want and not others, 'rate-window', 'server::rrl::Rrl::rate_and_limit_for_category|products', rl.where(), 'limit = rate x window over the admitted fields, per category',
+              'per category the function returns rate %s and limit = window x %s (other limit sources: %s); expected the category\'s own rate field in both' % (sorted(r0), sorted(r1), others))
     R.floor('rate-window', 7)
 
     # ---- (c)
